@@ -14,7 +14,7 @@ from sv import core
 PROPERTY = "C05"
 GEN = ["Point"]
 PROPS = ["ScoresVerif/Props/C05.lean"]
-DRIVER_DEPS = ["ScoresVerif.Driver.C05"]
+DRIVER_DEPS = ["ScoresVerif.Driver.C05Spec", "ScoresVerif.Driver.C05"]
 LEVEL = "proof"
 TRUSTED = ["libm sqrt (rmse, Pearson, KGE): sqrt is uninterpreted in the model; values are compared through exact "
            "moments / radicands and the theorems about sqrt are stated over the reals",
@@ -26,6 +26,29 @@ ASSUMPTIONS = ["inputs are dyadic rationals of small magnitude so float + - * an
                "non-dyadic quantile levels and sqrt are compared to 1e-9",
                "float rounding, overflow and signed zero are not modelled",
                "reduce_dims / preserve_dims are always passed as lists (bare strings are C01 / F1)"]
+MANIFEST = dict(
+    level="proof",
+    text="Kernel-checked Lean theorems about the pointwise kernels regenerated from functions.py, standard_impl.py, "
+         "quantile_loss_impl.py and interval_impl.py on every run, composed with a hand model of weights + NaN-skipping mean: "
+         "mse/mae/additive_bias/quantile_score (weighted, angular or not) equal the textbook mean over the valid cases for "
+         "fibres of any length; multiplicative_bias and pbias equal sum-then-ratio as IEEE quotients incl. the zero-denominator "
+         "outcomes; pinball = max form, non-negative, 0 at ties; interval score = width + clipped penalties = quantile-interval "
+         "score at symmetric levels = textbook Winkler form = (2/alpha) * pinball sum, obs on an end gives the width; angular "
+         "difference = min(d mod 360, 360 - d mod 360), range [0,180], symmetric, periodic for every integer number of turns, "
+         "self 0; MSE = bias^2 + var f + var o - 2 cov for series of any length; the library-style demeaned moments equal the "
+         "raw-moment forms; over the reals rmse^2 = mse, KGE(f,f) = 1, MSE decomposition with sigma and rho.  Tied to the code "
+         "by the translator, by a differential correspondence of every public function (xarray and pandas entry points, "
+         "kge with components) against the model, and by an independent oracle evaluating the textbook Spec in exact "
+         "arithmetic plus 20 relational laws between implementation runs.",
+    note="Trusted: Lean kernel; propext/Classical.choice/Quot.sound; py2lean translator; SV.Fl (IEEE minus rounding, overflow, "
+         "signed zero); the hand model of apply_weights/broadcast_and_match_nan/mean(skipna)/std/xr.corr on one fibre (tied by "
+         "correspondence only; the harness does broadcasting and grouping, dimension handling itself is C01); sqrt is "
+         "uninterpreted in the model: rmse, Pearson and KGE are compared through exact mse / moments / the translated KGE tail "
+         "evaluated on float sigma and rho, and the sqrt theorems are about the formula over the reals, not libm; dyadic "
+         "inputs, tolerance 1e-9; reduce_dims/preserve_dims always lists (bare strings: C01/F1); Dataset inputs and "
+         "coordinate alignment are not generated.",
+    technique="Lean 4 theorems over translator-regenerated kernels + hand reduction model + differential correspondence + exact Spec oracle",
+    design="6/C05")
 RULE = ("random labelled arrays (1-2 dims, sizes 1-5) over a dyadic pool with 40-60 % of observations copied from the "
         "forecast / an interval end, NaN in every slot, optional weights, list-valued reduce/preserve requests; "
         "parameters from pools containing both sides of each boundary; distinct = distinct canonical case; "
@@ -34,7 +57,7 @@ RULE = ("random labelled arrays (1-2 dims, sizes 1-5) over a dyadic pool with 40
 NAN = float("nan")
 MEAN_FNS = ["mse", "mae", "rmse", "additive_bias", "mean_error", "multiplicative_bias", "pbias", "quantile"]
 ALL_KINDS = MEAN_FNS + ["mse_ang", "mae_ang", "rmse_ang", "pearsonr", "kge", "qis", "interval",
-                        "pandas_mse", "pandas_rmse", "pandas_mae", "pandas_mse_ang", "pandas_mae_ang"]
+                        "pandas_mse", "pandas_rmse", "pandas_mae", "pandas_mse_ang", "pandas_mae_ang", "pandas_rmse_ang"]
 
 
 # ----------------------------------------------------------------------------- case representation
@@ -359,8 +382,8 @@ MODEL_SCORE = {"mse": ("mse", False), "mse_ang": ("mse", True), "rmse": ("mse", 
                "mean_error": ("additive_bias", False), "multiplicative_bias": ("multiplicative_bias", False),
                "pbias": ("pbias", False), "quantile": ("quantile", False),
                "pandas_mse": ("mse", False), "pandas_rmse": ("mse", False), "pandas_mae": ("mae", False),
-               "pandas_mse_ang": ("mse", True), "pandas_mae_ang": ("mae", True)}
-ROOTED = {"rmse", "rmse_ang", "pandas_rmse"}
+               "pandas_mse_ang": ("mse", True), "pandas_mae_ang": ("mae", True), "pandas_rmse_ang": ("mse", True)}
+ROOTED = {"rmse", "rmse_ang", "pandas_rmse", "pandas_rmse_ang"}
 
 
 def is_nan_s(s):
@@ -550,6 +573,19 @@ def tags_of(case, impl):
     return t
 
 
+def drive(ops, spec):
+    """model ops go to drivers/C05.lean (generated kernels + hand model); Spec ops to drivers/C05S.lean, which has no
+    generated code and therefore still runs when the regenerated kernels no longer build"""
+    if not spec:
+        return core.run_driver("C05", ops)
+    try:
+        return core.run_driver("C05S", ops)
+    except RuntimeError:
+        with core.BuildLock():
+            core.lake_build(["ScoresVerif.Driver.Loop", "ScoresVerif.Driver.C05Spec"])
+        return core.run_driver("C05S", ops)
+
+
 def evaluate(cases, spec=False):
     """runs implementation and (model | spec) on every case; returns list of (impl, expected)"""
     ops, spans = [], []
@@ -557,7 +593,7 @@ def evaluate(cases, spec=False):
         o = spec_ops(c) if spec else model_ops(c)
         spans.append((len(ops), len(ops) + len(o)))
         ops += o
-    outs = core.run_driver("C05", ops)
+    outs = drive(ops, spec)
     stage2 = {}
     if not spec:
         ops2, spans2 = [], {}
@@ -618,8 +654,8 @@ def check_angular(ctx, batch, kind_, pairs, spec):
         keep = [i for i, p in enumerate(pairs) if not (math.isnan(p[0]) or math.isnan(p[1]))]
     else:
         keep = list(range(len(pairs)))
-    out = core.run_driver("C05", [{"op": "c05.spec.angular" if spec else "c05.angular",
-                                   "args": {"pairs": [[S(pairs[i][0]), S(pairs[i][1])] for i in keep]}}])[0]
+    out = drive([{"op": "c05.spec.angular" if spec else "c05.angular",
+                  "args": {"pairs": [[S(pairs[i][0]), S(pairs[i][1])] for i in keep]}}], spec)[0]
     for j, i in enumerate(keep):
         c = {"kind": "angular_difference", "a": S(pairs[i][0]), "b": S(pairs[i][1])}
         ctx.case(batch, c, nontrivial=not math.isnan(got[i]))
